@@ -226,7 +226,7 @@ def run(R, ctx):
     R.explanation = (
         "Guard-before-act rule on every place where a run-time string becomes a table key or field name, the keyword table of "
         "is_valid_identifier, and totality of the data serializer's method set. Decides that no key can be emitted as a bare name unless it is "
-        "an identifier; literal text of numbers/strings (C13) and format-specific parsing are not decided."
+        "an identifier; literal text of numbers/strings (C13) and format-specific parsing are not decided. Decision / transfer functions among these are decided by finite-domain evaluation of their typed tree (sa/peval.py): every point of a small abstract domain is evaluated and compared with the reference; nothing is sampled and no program input exists."
     )
     R.assumptions += ["the five listed functions are the places where data/evaluated strings become names (enumerated from the tree and reviewed)"]
     ident(R, ctx)
